@@ -374,3 +374,29 @@ Example C07_bridge_nonvacuous :
   /\ skel_ok opts_mysql (create_table1 96 (bs "t;"%string) (bs "c"%string)) = true
   /\ render (create_table1 96 (bs "t;"%string) (bs "c"%string)) = bs "CREATE TABLE `t;` (`c` integer NOT NULL)"%string.
 Proof. repeat split; vm_compute; reflexivity. Qed.
+
+(** Import, directory level (the exact characterisation next to C07_import_order_refuted): if the
+    import keeps the file order — the target names, listed by name as the atlas directory does,
+    are in the order the files were written, and are distinct — and every source file is
+    [import_source_ok] (its reader succeeds, every statement has whole "--" comment lines, a
+    closed text and the trailing ';'), the imported directory has the source's statement sequence. *)
+Theorem C07_import_dir_except : forall F now files out,
+  import_dir F now files = Some out ->
+  import_order_ok out = true -> NoDup (map fst out) ->
+  (forall o, In o (dir_files F (map fst files)) ->
+     exists c, find (fun f => bytes_eqb (fst f) o) files = Some (o, c) /\ import_source_ok F c = true) ->
+  imported_stmts out = source_stmts F files (dir_files F (map fst files)).
+Proof. exact import_dir_roundtrip. Qed.
+Print Assumptions C07_import_dir_except.
+Example C07_import_dir_nonvacuous :
+  match import_dir FFlyway [] (rev w_import_files ++ [(bs "V11__c.sql"%string, bs ("CREATE TABLE tc (a text DEFAULT 'x;');" ++ nl)%string)]) with
+  | Some out => negb (import_order_ok out)
+  | None => false
+  end = true
+  /\ match import_dir FGolangMigrate [] [(bs "1_a.up.sql"%string, bs ("-- c" ++ nl ++ "CREATE TABLE ta (a int);" ++ nl)%string);
+                                         (bs "2_b.up.sql"%string, bs ("CREATE TABLE tb (a text DEFAULT ';');" ++ nl)%string)] with
+     | Some out => import_order_ok out && (List.length out =? 2)%nat
+     | None => false
+     end = true
+  /\ import_source_ok FGolangMigrate (bs ("-- c" ++ nl ++ "CREATE TABLE ta (a int);" ++ nl)%string) = true.
+Proof. repeat split; vm_compute; reflexivity. Qed.
